@@ -49,7 +49,7 @@ checks = {
    "bulk_get(_string) with repetition, bulk_delete(_string)/bulk_put(_string) without, put_from_iter with repetition, put_string/get_string/delete_string: every returned vector position-wise and every final state against the element-wise model, with invalid UTF-8 values; long batches, large-value batches, keys of every pair of adjacent key slot classes, reuse of large slots, keys made by the owned conversions.",
    "batch length <= 4 (8 thorough) in the complete enumeration"),
  "C15": (A, "model_checking", "self-loop check on every state of image-graph closures: read-only session then byte comparison",
-   "On every reachable state each of 28 read-only calls alone (all ordered pairs in thorough) in its own open/close bracket must leave the three files byte-identical and the contents unchanged; combined sessions on further closures, table sizes 1..1024 and 262144, values of 140000 bytes, a key file whose last record straddles a buffer-chunk boundary, and all key types.",
+   "On every reachable state each of 29 read-only calls alone (all ordered pairs in thorough) in its own open/close bracket must leave the three files byte-identical and the contents unchanged; combined sessions on further closures, table sizes 1..1024 and 262144, values of 140000 bytes, a key file whose last record straddles a buffer-chunk boundary, and all key types.",
    "states are those of the small closures"),
  "C16": (C, "fault_enumeration", "deviation-bounded fault enumeration: every write of every durability call refused (1 deviation; 2 deviations for short histories / thorough)",
    "For all histories of 1..3 (4 thorough) letters over two maps (updates and a successful flush) x 5 durability calls, in three file geometries: the unfaulted call must leave a durable copy; count the W writes of the call, then refuse the k-th write for every k and three refusal modes, and apply the real RLIMIT_FSIZE at every distinct threshold; the call must return Err, reads while refusing must be right or Err, after lifting the view equals the model before any flush, the next flush succeeds and the snapshot decodes and opens to the model.",
